@@ -58,25 +58,35 @@ def gen_cases(rng, tier):
             v = ("seq", b"(", (("str", b"a", b"x" * ln), ("str", b"s", b"y" * ln)))
             add(pm.header(ver) + pm.dumps(v, ver, rng, 0.3), ["strlen%d" % ln, "%d.%d" % ver], ver, v)
     # near-duplicates: objects that differ in exactly one place must not be merged by the writer's de-duplication
-    for i in range(150 if tier == "quick" else 2500):
-        ver = VERS[::-1][i % len(VERS)]
-        for _attempt in range(20):
-            kind = i % 7
-            if kind == 0 and ver >= (3, 14):
-                v = ("slice", pm.gen_value(rng, ver, 4), pm.gen_value(rng, ver, 4), pm.gen_value(rng, ver, 4))
-            elif kind == 1:
-                v = ("complex", struct.pack("<dd", rng.choice([0.0, 1.5, -2.0]), rng.choice([0.0, -0.0, 3.25])))
-            elif kind == 2:
-                v = ("float", struct.pack("<d", rng.choice([0.0, -0.0, 1.0, 1e100])))
-            else:
-                v = pm.gen_value(rng, ver, rng.choice([0, 2, 3]))
-            if v[0] != "single":
-                break
-        w = mutate_one(rng, v)
+    def near_dup(ver, v, w, tag):
         both = ("seq", b"(", (v, w, v, w, ("seq", b"(", (w, v))))
         payload = pm.dumps(both, ver, rng, rng.choice([0.0, 0.5, 1.0]))
         if len(payload) <= 30000:
-            add(pm.header(ver) + payload, ["near-dup", "%d.%d" % ver, v[0]], ver, both)
+            add(pm.header(ver) + payload, ["near-dup", "%d.%d" % ver, tag], ver, both)
+
+    reps = 2 if tier == "quick" else 30
+    for ver in VERS:
+        for kind in range(6):
+            for _ in range(reps):
+                if kind == 0:
+                    v = ("complex", struct.pack("<dd", rng.choice([0.0, 1.5, -2.0]), rng.choice([0.0, -0.0, 3.25])))
+                elif kind == 1:
+                    v = ("float", struct.pack("<d", rng.choice([0.0, -0.0, 1.0, 1e100])))
+                elif kind == 2:
+                    v = ("long", rng.choice([2 ** 31, -2 ** 40, 2 ** 15, 2 ** 64 + 1]))
+                else:
+                    for _attempt in range(20):
+                        v = pm.gen_value(rng, ver, rng.choice([0, 2, 3]))
+                        if v[0] != "single":
+                            break
+                near_dup(ver, v, mutate_one(rng, v), v[0])
+    # slices (3.14): each of start/stop/step differing alone
+    leaves = [("single", b"N"), ("int", struct.pack("<i", 1)), ("int", struct.pack("<i", -1)), ("int", struct.pack("<i", 2)), ("single", b"T")]
+    for pos in (1, 2, 3):
+        for _ in range(4 if tier == "quick" else 40):
+            v = ("slice", rng.choice(leaves), rng.choice(leaves), rng.choice(leaves))
+            alt = rng.choice([x for x in leaves if x != v[pos]])
+            near_dup((3, 14), v, v[:pos] + (alt,) + v[pos + 1:], "slice-field%d" % pos)
     # versions the tool leaves alone: every release magic before 3.4, with a payload that 3.4+ rules would rewrite
     for magic in (62211, 3000, 3131, 3141, 3151, 3160, 3180, 3190, 3210, 3220, 3230):
         hdr = bytes([magic & 255, magic >> 8]) + b"\r\n" + b"\0" * (8 if magic >= 3190 else 4)
